@@ -4,13 +4,14 @@ use crate::support::*;
 use educe::Educe;
 use core::cmp::Ordering;
 #[derive(Educe)]
-#[educe(Eq, PartialEq, Ord, PartialOrd)]
-pub enum T { Zed { arg: bool, a: u8 }, V1(Option<u8>, Option<u8>, #[educe(Ord(rank = 8))] Option<u8>) }
+#[repr(i64)]
+#[educe(PartialOrd, Eq, PartialEq)]
+pub enum T { B { state: i64, r#type: &'static u8 }, A }
 
-pub fn values() -> Vec<T> { vec![T::Zed { arg: false, a: 0 }, T::Zed { arg: false, a: 100 }, T::Zed { arg: false, a: 200 }, T::Zed { arg: true, a: 0 }, T::Zed { arg: true, a: 100 }, T::Zed { arg: true, a: 200 }, T::V1(Some(0), None, None), T::V1(Some(0), None, Some(255)), T::V1(None, Some(255), Some(255)), T::V1(None, None, Some(255)), T::V1(Some(255), None, Some(0)), T::V1(None, Some(0), Some(0)), T::V1(Some(255), None, Some(255)), T::V1(Some(0), Some(255), Some(255)), T::V1(Some(255), Some(0), None), T::V1(Some(0), None, Some(0)), T::V1(None, Some(0), None), T::V1(None, Some(255), Some(0)), T::V1(Some(255), Some(255), None), T::V1(Some(255), Some(255), Some(255)), T::V1(Some(255), None, None), T::V1(Some(0), Some(255), None), T::V1(Some(0), Some(255), Some(0)), T::V1(None, None, None)] }
-pub fn show(x: &T) -> String { #[allow(unused_variables)] match x { T::Zed { arg: p0, a: p1 } => format!("Zed({},{})", sv(p0), sv(p1)), T::V1(p0, p1, p2) => format!("V1({},{},{})", sv(p0), sv(p1), sv(p2)) } }
-pub fn o_disc(x: &T) -> i128 { match x { T::Zed { arg: _, a: _ } => 0, T::V1(_, _, _) => 1 } }
-pub fn o_cmp(a: &T, b: &T) -> Ordering { match (a, b) { (T::Zed { arg: a0, a: a1 }, T::Zed { arg: b0, a: b1 }) => { let c = ::core::cmp::Ord::cmp(a0, b0); if c != Ordering::Equal { return c; } let c = ::core::cmp::Ord::cmp(a1, b1); if c != Ordering::Equal { return c; } Ordering::Equal }, (T::V1(a0, a1, a2), T::V1(b0, b1, b2)) => { let c = ::core::cmp::Ord::cmp(a0, b0); if c != Ordering::Equal { return c; } let c = ::core::cmp::Ord::cmp(a1, b1); if c != Ordering::Equal { return c; } let c = ::core::cmp::Ord::cmp(a2, b2); if c != Ordering::Equal { return c; } Ordering::Equal }, _ => o_disc(a).cmp(&o_disc(b)) } }
+pub fn values() -> Vec<T> { vec![T::B { state: -5, r#type: &3u8 }, T::B { state: -5, r#type: &200u8 }, T::B { state: 0, r#type: &3u8 }, T::B { state: 0, r#type: &200u8 }, T::B { state: 9, r#type: &3u8 }, T::B { state: 9, r#type: &200u8 }, T::A] }
+pub fn show(x: &T) -> String { #[allow(unused_variables)] match x { T::B { state: p0, r#type: p1 } => format!("B({},{})", sv(p0), sv(p1)), T::A => format!("A()") } }
+pub fn o_disc(x: &T) -> i128 { match x { T::B { state: _, r#type: _ } => 0, T::A => 1 } }
+pub fn o_pcmp(a: &T, b: &T) -> Option<Ordering> { match (a, b) { (T::B { state: a0, r#type: a1 }, T::B { state: b0, r#type: b1 }) => { match ::core::cmp::PartialOrd::partial_cmp(a0, b0) { Some(Ordering::Equal) => (), x => return x } match ::core::cmp::PartialOrd::partial_cmp(a1, b1) { Some(Ordering::Equal) => (), x => return x } Some(Ordering::Equal) }, (T::A, T::A) => {  Some(Ordering::Equal) }, _ => Some(o_disc(a).cmp(&o_disc(b))) } }
 #[repr(C)] pub struct Wrap { pub pre: u8, pub x: T, pub post: [u8; 9] }
 pub fn wrap(i: usize, n: u8) -> Wrap { Wrap { pre: n, x: values().swap_remove(i), post: [n; 9] } }
-pub fn run(out: &mut Out) { let vs = values(); for (i, a) in vs.iter().enumerate() { for (j, b) in vs.iter().enumerate() { let e = o_cmp(a, b); let g = ::core::cmp::Ord::cmp(a, b); out.check(g == e, "ordlayout_22", "cmp", || format!("cmp({}, {}) = {:?} expected {:?}", show(a), show(b), g, e)); let g2 = ::core::cmp::PartialOrd::partial_cmp(a, b); out.check(g2 == Some(e), "ordlayout_22", "partial_is_some_cmp", || format!("partial_cmp({}, {}) = {:?} expected Some({:?})", show(a), show(b), g2, e)); for n in [0u8, 1, 0x7f, 0x80, 0xff] { let wa = wrap(i, n); let wb = wrap(j, !n); let g = ::core::cmp::Ord::cmp(&wa.x, &wb.x); let e = o_cmp(a, b); out.check(g == e, "ordlayout_22", "cmp_neighbours", || format!("cmp({}, {}) with neighbour bytes {} = {:?} expected {:?}", show(a), show(b), n, g, e)); } } } }
+pub fn run(out: &mut Out) { let vs = values(); for (i, a) in vs.iter().enumerate() { for (j, b) in vs.iter().enumerate() { let e = o_pcmp(a, b); let g = ::core::cmp::PartialOrd::partial_cmp(a, b); out.check(g == e, "ordlayout_22", "partial_cmp", || format!("partial_cmp({}, {}) = {:?} expected {:?}", show(a), show(b), g, e)); for n in [0u8, 1, 0x7f, 0x80, 0xff] { let wa = wrap(i, n); let wb = wrap(j, !n); let g = ::core::cmp::PartialOrd::partial_cmp(&wa.x, &wb.x); let e = o_pcmp(a, b); out.check(g == e, "ordlayout_22", "cmp_neighbours", || format!("cmp({}, {}) with neighbour bytes {} = {:?} expected {:?}", show(a), show(b), n, g, e)); } } } }
